@@ -59,6 +59,28 @@ class LibMixin:
             return self.cont_call(ct, 'reverse', cont)
         if name == 'abs' and len(args) == 1:
             a = self.expr(args[0]); return '((%s) < 0 ? -(%s) : (%s))' % (a, a, a)
+        if name in ('make_shared', 'make_unique'):
+            rt = self.tyq(n['type'])
+            if rt.kind == 'ptr' and rt.elem is not None and rt.elem.kind == 'rec' and self.inline_checks == 0:
+                # smart pointer mapped to a plain pointer (typemap): allocation from a pool stub + the matching constructor
+                t = rt.elem; args2 = [a for a in args if a.get('kind') != 'CXXDefaultArgExpr']
+                cands = []
+                for c in self.record_ctors(t.rec):
+                    ps = self.params_of(c)
+                    if len(ps) < len(args2): continue
+                    if any(not [x for x in p.get('inner', []) if x.get('kind') not in ('FullComment',)] for p in ps[len(args2):]): continue
+                    try:
+                        if all(self.tyq(p['type']).c == self.tyq(a['type']).c for p, a in zip(ps, args2)): cands.append(c)
+                    except Unsupported: pass
+                if len(cands) != 1: raise Unsupported('%s<%s>: %d constructors match at %s' % (name, t.c, len(cands), self.where(n)))
+                fn = self.want(cands[0])
+                val = '%s(%s)' % (fn, ', '.join(self.call_args(cands[0], args2)))
+                an = 'cc_new_' + cident(t.c)
+                self.autostubs.setdefault(an, '%s* %s(void);' % (t.c, an)); self.fninfo.setdefault(an, {'qname': an, 'stub': True})
+                tn = self.tmp('obj')
+                self.pre.append('%s* %s = %s(); *%s = %s;' % (t.c, tn, an, tn, val))
+                self.rules['make_shared/make_unique-as-pool-allocation'] += 1
+                return tn
         if name in self.u.get('lib_stubs', ['stoi', 'stol', 'to_string', 'get', 'invoke', 'swap', 'holds_alternative']):
             # library function kept as an assumed-contract stub (declared in the unit description)
             atxt = []; ptxt = []; suffix = []
@@ -94,6 +116,8 @@ class LibMixin:
         h = self.u_hook('lib_method', t, m, obj, is_arrow, args, n, rvalue)
         if h is not None: return h
         k = t.kind
+        if k == 'ptr' and m == 'get' and not args:
+            return self.expr(obj)           # smart pointer mapped to a plain pointer
         if k == 'sv':
             o = self.obj_text(obj, is_arrow)
             a = [self.expr(x) for x in args if x.get('kind') != 'CXXDefaultArgExpr']
@@ -147,6 +171,21 @@ class LibMixin:
             if m == 'erase' and len(args) == 1:
                 self.rules['vector::erase(iterator)'] += 1
                 return self.cont_call(t, 'erase_at', o, [self.expr(args[0])])
+            if m == 'insert' and len(args) == 3:
+                # v.insert(end(v), begin(w), end(w)): append the whole of w
+                def nm(x):
+                    c = self.skip(x)
+                    while c.get('kind') == 'CXXConstructExpr' and len(c.get('inner', [])) == 1: c = self.skip(c['inner'][0])   # iterator -> const_iterator
+                    if c.get('kind') in ('CallExpr', 'CXXMemberCallExpr'):
+                        try: return self.callee_decl(c)[1].get('name')
+                        except Unsupported: return None
+                    return None
+                src = self.find_container_in(args[1])
+                if nm(args[0]) in ('end', 'cend') and self.find_container_in(args[0]) == o and src is not None and src == self.find_container_in(args[2]) \
+                   and nm(args[1]) in ('begin', 'cbegin') and nm(args[2]) in ('end', 'cend'):
+                    self.rules['vector::insert(end, begin(w), end(w))'] += 1
+                    return self.cont_call(t, 'append_all', o, [self.addr(src)])
+                raise Unsupported('vector::insert(pos, first, last) other than appending a whole container at %s [%s | %s | %s | %s %s %s]' % (self.where(n), o, self.find_container_in(args[0]), src, nm(args[0]), nm(args[1]), nm(args[2])))
             return None
         if k == 'uset':
             o = self.obj_text(obj, is_arrow)
@@ -249,7 +288,7 @@ class LibMixin:
         try: return self.tyq(arg['type']).c == t.c
         except Unsupported: return False
 
-    MUTATORS = {'push_back', 'pop_back', 'clear', 'erase_at', 'erase_range', 'insert_at', 'splice1', 'insert', 'erase', 'emplace', 'reverse', 'resize'}
+    MUTATORS = {'append_all', 'push_back', 'pop_back', 'clear', 'erase_at', 'erase_range', 'insert_at', 'splice1', 'insert', 'erase', 'emplace', 'reverse', 'resize'}
     def cont_call(self, t, op, o, args=()):
         """call of a container stub on lvalue text `o`.  CBMC 6.11 mis-reads through pointers to an
         element nested in a struct array reached via a pointer parameter (DESIGN §2 item 8), so for
